@@ -13,7 +13,7 @@ P("C04",
              "c04_round_times_monotone, c04_no_overlap_across_times (the acceptor par_trace_ok accepts every model trace: an event starts "
              "only if no scheduled-and-unfinished event is earlier, and all executing handlers share its time and phase; the engine never "
              "panics), c04_secondary_round_clean (a secondary round at t is chosen, under the pause lock, only when nothing is executing and every queued primary "
-             "is later than t, incl. primaries spawned by primaries at t or injected by a paused controller), c04_phase_guaranteed (acceptor phase_guaranteed_ok accepts every execution incl. an external Pause/Schedule-at-now/Continue controller: a live same-instant primary at a secondary start was scheduled by a secondary of that instant), c04_reordered_pause_refuted (determineWhatToRun before pauseLock.Lock loses it). Link to the tie's deterministic rounds function: c04_rounds_schedule_independent_partial (every round the engine chooses is the round `rounds` chooses on the pending multiset, `rounds` unfolds to that choice + next_pending, all multiset-invariant) and c04_queue_accounting (every queue is in its channel, in a Schedule call or taken by the round); and, without a controller, the FULL statement c04_rounds_schedule_independent / c04_two_schedules_same_rounds: for every interleaving the (time, phase) sequence of the rounds, the members of every round (multiset) and the pending multiset at every boundary are those of the deterministic iteration, and equal `rounds` on the initial events when Run returns (snapshot + channel-discipline + child-conservation invariants). Built-in hypothesis: a handler's scheduled events are a function of the handled event alone (no state shared between handlers of one round) — for handlers that share state the engine gives no order inside a round, the root of known finding F-C04-1. c04_sibling_secondary_corner_refuted: witness interleaving of the "
+             "is later than t, incl. primaries spawned by primaries at t or injected by a paused controller), c04_phase_guaranteed (acceptor phase_guaranteed_ok accepts every execution incl. an external Pause/Schedule-at-now/Continue controller: a live same-instant primary at a secondary start was scheduled by a secondary of that instant), c04_reordered_pause_refuted (determineWhatToRun before pauseLock.Lock loses it). Link to the tie's deterministic rounds function: c04_rounds_schedule_independent_partial (every round the engine chooses is the round `rounds` chooses on the pending multiset, `rounds` unfolds to that choice + next_pending, all multiset-invariant) and c04_queue_accounting / c04_queue_accounting_ctl (every queue is in its channel, in a handler's or the controller's Schedule call, or taken by the round); and, without a controller, the FULL statement c04_rounds_schedule_independent / c04_two_schedules_same_rounds: for every interleaving the (time, phase) sequence of the rounds, the members of every round (multiset) and the pending multiset at every boundary are those of the deterministic iteration, and equal `rounds` on the initial events when Run returns (snapshot + channel-discipline + child-conservation invariants). Built-in hypothesis: a handler's scheduled events are a function of the handled event alone (no state shared between handlers of one round) — for handlers that share state the engine gives no order inside a round, the root of known finding F-C04-1. c04_sibling_secondary_corner_refuted: witness interleaving of the "
              "literal phase clause — confirmed on the real engine (known finding).",
   level_note="partial: the Go scheduler, WaitGroup, channel, mutex and memory-model semantics are assumed (modelled steps atomic and "
              "sequentially consistent); real interleavings are sampled, not enumerated. Queue = time-ordered FIFO list (heap is C01's subject). "
